@@ -696,9 +696,20 @@ def _download_from_resources(
     """
 
     def _worker(cache_miss: CacheMiss) -> bool:
+        # Download and post-process under a temporary name that is not recognized as
+        # a cache file, and only publish the result under its final name once both
+        # steps succeeded. An interrupted download can then never be mistaken for a
+        # valid cache entry (neither now, nor when the cache directory is reopened).
+        temporary_filepath = cache_miss.filepath + ".part"
         try:
-            cache_miss.download_function(cache_miss.uri, cache_miss.filepath)
-            cache_miss.post_process_function(cache_miss.filepath)
+            try:
+                cache_miss.download_function(cache_miss.uri, temporary_filepath)
+                cache_miss.post_process_function(temporary_filepath)
+                os.replace(temporary_filepath, cache_miss.filepath)
+            except BaseException:
+                if os.path.exists(temporary_filepath):
+                    os.remove(temporary_filepath)
+                raise
             return True
         except _RemoteResourceUriNotFound as e:
             if cache_miss.allow_for_missing_files:
